@@ -167,6 +167,14 @@ Theorem C05_src_has_id_intersection : forall s p chs, WF s ->
   src_has_id_intersection (S (length (hp s))) (hp s) p chs = id_clash (hp s) p chs.
 Proof. exact src_has_id_intersection_eq. Qed.
 
+(* ---- wbs[id] from the source text (wbs.py, WBS.__getitem__; gen/SrcGraph.v src_wbs_getitem): the translated lookup is
+   the model's [wbs_getitem], so C05_lookup (the one member with that id, Err iff none, never a crash) describes the source ---- *)
+From PJ Require Import Graph.SrcGraphEquiv8.
+
+Theorem C05_src_wbs_getitem : forall s w i,
+  src_wbs_getitem (S (length (hp s))) (hp s) (wroot s w) i = wbs_getitem s w i.
+Proof. exact src_wbs_getitem_eq. Qed.
+
 Print Assumptions C05_unique.
 Print Assumptions C05_unique_below.
 Print Assumptions C05_unique_wbs.
@@ -190,3 +198,4 @@ Print Assumptions C05_src_get_children.
 Print Assumptions C05_src_all_children.
 Print Assumptions C05_src_collect_subtree.
 Print Assumptions C05_src_has_id_intersection.
+Print Assumptions C05_src_wbs_getitem.
